@@ -35,3 +35,40 @@ Theorem draws_source_spec : forall t,
   tr_tbc_proof_seed_default t = Some (le_to_N (firstn 4 t), skipn 4 t) /\
   tr_wrath_proof_seed_default t = Some (le_to_N (firstn 4 t), skipn 4 t).
 Proof. intro t. repeat split; reflexivity. Qed.
+
+(* ProofSeed::new of the three modules is ProofSeed::default (one 4-byte draw) *)
+Lemma proof_seed_new_translated : forall t,
+  tr_vanilla_proof_seed_new t = Some (proof_seed_new t) /\
+  tr_tbc_proof_seed_new t = Some (proof_seed_new t) /\
+  tr_wrath_proof_seed_new t = Some (proof_seed_new t).
+Proof.
+  intros t. unfold tr_vanilla_proof_seed_new, tr_tbc_proof_seed_new, tr_wrath_proof_seed_new.
+  destruct (proof_seed_default_translated t) as (-> & -> & ->).
+  destruct (proof_seed_new t) as [s t']. repeat split.
+Qed.
+
+(* ---- the `Default` body of the key_new! macro (src/key.rs), translated with the macro parameter $size as
+   a parameter: one draw of exactly $size bytes; and the instantiations: Salt 32, PrivateKey 32,
+   ReconnectData 16 (read from the macro invocations on this run) ---- *)
+Lemma key_macro_default_translated : forall size t,
+  tr_key_macro_default size t = Some (draw (N.to_nat size) t).
+Proof.
+  intros size t. unfold tr_key_macro_default. cbv zeta. rewrite repeat_length.
+  destruct (draw (N.to_nat size) t) as [k t']. reflexivity.
+Qed.
+
+Lemma key_new_instances :
+  inst_key_new_Salt = salt_length /\ inst_key_new_PrivateKey = private_key_length /\
+  inst_key_new_ReconnectData = reconnect_challenge_data_length /\
+  inst_key_wrapper_Salt = 32%N /\ inst_key_wrapper_PrivateKey = 32%N /\ inst_key_wrapper_PublicKey = 32%N /\
+  inst_key_wrapper_Sha1Hash = 20%N /\ inst_key_wrapper_Verifier = 32%N /\ inst_key_wrapper_Proof = 20%N /\
+  inst_key_wrapper_SKey = 32%N /\ inst_key_wrapper_ReconnectData = 16%N /\ inst_key_wrapper_SessionKey = 40%N /\
+  inst_key_no_checks_initialization_Salt = inst_key_wrapper_Salt /\
+  inst_key_no_checks_initialization_PrivateKey = inst_key_wrapper_PrivateKey /\
+  inst_key_no_checks_initialization_Sha1Hash = inst_key_wrapper_Sha1Hash /\
+  inst_key_no_checks_initialization_Verifier = inst_key_wrapper_Verifier /\
+  inst_key_no_checks_initialization_Proof = inst_key_wrapper_Proof /\
+  inst_key_no_checks_initialization_SKey = inst_key_wrapper_SKey /\
+  inst_key_no_checks_initialization_ReconnectData = inst_key_wrapper_ReconnectData /\
+  inst_key_no_checks_initialization_SessionKey = inst_key_wrapper_SessionKey.
+Proof. repeat split. Qed.
